@@ -38,6 +38,7 @@ static_assert(same<decltype(etl::forward_like<Tr>(etl::declval<Mo&>())), Mo&&>);
 // Known compile-time defects of the pinned tree (the expressions below are ill-formed with etl and fine with std; they are
 // outside what a solver can decide and are reported in the evidence text / final report, enable after a fix):
 #ifdef C20_EXPECT_FIXED
+static_assert(etl::is_constructible_v<etl::tuple<int&>, etl::tuple<int&>&>);                          // is "true" today but instantiating it is a hard error: the Args&&... constructor wins for a 1-tuple
 static_assert(same<decltype(etl::tuple_cat(etl::declval<etl::tuple<int, Mo>>())), etl::tuple<int, Mo>>);      // tuple_cat.hpp:32 CTAD: ill-formed for move-only elements with g++ 12
 static_assert(same<decltype(etl::get<0>(etl::declval<etl::pair<int&, int>&&>())), int&>);          // pair.hpp:276/278, 291/293: etl::move(p.first) cannot bind to the int& return type
 static_assert(same<decltype(etl::make_tuple(etl::ref(etl::declval<int&>()))), etl::tuple<int&>>);   // tuple_leaf<I,int&>{reference_wrapper<int>}: brace-init of a reference from a class type
